@@ -57,6 +57,13 @@ JudgeFork(e) ==
   IN Tag(store' = exp.store, "Fork.store") \o Tag(hidx' = exp.hidx, "Fork.hidx") \o
      Tag(count' = exp.count, "Fork.count") \o Tag(last' = exp.last, "Fork.last")
 
+(* two overlapping calls: what the stores hold equals the locked sections in the observed order *)
+JudgeConc(e) ==
+  LET exp == ConcPost(store, hidx, count, last, [g |-> e.g, pre |-> e.pre], e.b, e.first, FALSE)
+  IN Tag(e.okA = exp.okA /\ e.okB = exp.okB, "Conc.accept") \o
+     Tag(store' = exp.r.store, "Conc.store") \o Tag(hidx' = exp.r.hidx, "Conc.hidx") \o
+     Tag(count' = exp.r.count, "Conc.count") \o Tag(last' = exp.r.last, "Conc.last")
+
 JudgeRestart(e) ==
   Tag(<<store', hidx', count', last'>> = <<store, hidx, count, last>>, "Restart.changed")
 
@@ -81,6 +88,7 @@ Judge(e) ==
      [] e.event = "Remove"  -> JudgeRemove(e)
      [] e.event = "Restart" -> JudgeRestart(e)
      [] e.event = "Fork"    -> JudgeFork(e)
+     [] e.event = "Conc"    -> JudgeConc(e)
      [] e.event = "Reset"   -> <<>>
      [] OTHER               -> <<"unknown-event">>) \o JudgeInv(e)
 
